@@ -157,29 +157,80 @@ def _r1(ctx):
 
 
 def _r2(ctx):
+    """_get_bond_triplets evaluated (sa/tensym.py) on a model topology that has every case in it: N-H and O-H bonds listed in either
+    orientation, backbone / side-chain / water atoms, an S-H bond and a carbon that must stay out.  The rows returned are compared, as a
+    multiset, with the definition: donors = bonds between {N,H} or {O,H} with both atoms participating, written (heavy atom, hydrogen);
+    acceptors = participating N / O atoms; every donor with every acceptor except the donor's own heavy atom."""
+    from ..tensym import TenSym, Ten, Obj, Raised
+    from ..pysym import Unsupported as PUnsupported
     fn = ctx.py.func(HB, "_get_bond_triplets")
-    s = src(fn)
-    calls = [n for n in walk_no_nested(fn) if isinstance(n, ast.Call) and call_name(n) == "get_donors"]
-    pairs = sorted(tuple(const(a) for a in c.args) for c in calls)
-    ctx.decide(pairs == [("N", "H"), ("O", "H")], "C14-R2", fn, HB, "_get_bond_triplets", "donor element pairs {N-H, O-H}", "", "donor pairs are %s" % pairs)
-    acc = [n for n in walk_no_nested(fn) if isinstance(n, ast.Assign) and dotted(n.targets[0]) == "acceptor_elements"]
-    got = None
-    if acc and isinstance(acc[0].value, ast.Call) and acc[0].value.args:
-        got = set(const(acc[0].value.args[0]) or ())
-    ctx.decide(got == {"O", "N"}, "C14-R2", acc[0] if acc else fn, HB, "_get_bond_triplets", "acceptor elements {O, N}", "", "acceptor elements are %s" % got)
-    gd = ctx.py.mod(HB).functions.get("_get_bond_triplets.get_donors")
-    gs = src(gd) if gd is not None else ""
-    ctx.decide("topology.bonds" in gs and "== elems" in gs, "C14-R2", gd or fn, HB, "_get_bond_triplets.get_donors", "donors come from the bond list by element pair", "", "donors are no longer taken from topology.bonds by element pair")
-    ctx.decide("can_participate(atom[0]) and can_participate(atom[1])" in gs, "C14-R2", gd or fn, HB, "_get_bond_triplets.get_donors", "participation filter on both donor atoms", "", "donor atoms are not both filtered")
-    ctx.decide("if a0.element.symbol == e1:" in gs and "pair = pair[::-1]" in gs, "C14-R2", gd or fn, HB, "_get_bond_triplets.get_donors", "pairs ordered (heavy atom, hydrogen)", "", "donor pairs are not normalised to (X, H)")
-    accl = [n for n in walk_no_nested(fn) if isinstance(n, ast.Assign) and dotted(n.targets[0]) == "acceptors" and isinstance(n.value, ast.ListComp)]
-    ok = bool(accl) and "can_participate(a)" in src(accl[0].value) and "a.element.symbol in acceptor_elements" in src(accl[0].value)
-    ctx.decide(ok, "C14-R2", accl[0] if accl else fn, HB, "_get_bond_triplets", "same participation filter on acceptors", "", "acceptors are not filtered like donors")
-    cp = ctx.py.mod(HB).functions.get("_get_bond_triplets.can_participate")
-    cs = src(cp) if cp is not None else ""
-    ctx.decide("exclude_water and atom.residue.is_water" in cs and "sidechain_only and (not atom.is_sidechain)" in cs,
-               "C14-R2", cp or fn, HB, "_get_bond_triplets.can_participate", "water / side-chain filters", "", "participation filter changed")
-    ctx.decide("self_bond_mask = bond_triplets[:, 0] == bond_triplets[:, 2]" in s and "np.logical_not(self_bond_mask)" in s, "C14-R2", fn, HB, "_get_bond_triplets", "donor == acceptor triplets removed", "", "self bonds are not removed")
+    q = "_get_bond_triplets"
+    spec = [("N", False, False), ("H", False, False), ("C", False, False), ("O", False, False),      # backbone N-H, C=O
+            ("O", False, True), ("H", False, True), ("N", False, True), ("H", False, True),          # side-chain O-H (listed H first), N-H
+            ("O", True, False), ("H", True, False), ("H", True, False),                              # water, one bond listed H first
+            ("S", False, True), ("H", False, True)]                                                  # thiol: not a donor
+    bond_ids = [(0, 1), (2, 3), (5, 4), (6, 7), (8, 9), (10, 8), (11, 12), (0, 2)]
+
+    def world(bonds=bond_ids, only=None):
+        atoms = [Obj(tag="%s%d" % (e, i), index=i, element=Obj(symbol=e), residue=Obj(is_water=w), is_sidechain=sc) for i, (e, w, sc) in enumerate(spec)]
+        if only is not None:
+            atoms = [a for a in atoms if a.index in only]
+        return Obj(tag="top", atoms=atoms, bonds=[(atoms[i], atoms[j]) for i, j in bonds]), atoms
+
+    def name(i):
+        return "%s%d" % (spec[i][0], i)
+
+    def definition(exclude_water, sidechain_only):
+        def part(i):
+            e, w, sc = spec[i]
+            return not (exclude_water and w) and not (sidechain_only and not sc)
+        donors = []
+        for heavy in ("N", "O"):
+            for i, j in bond_ids:
+                if {spec[i][0], spec[j][0]} == {heavy, "H"} and part(i) and part(j):
+                    donors.append((i, j) if spec[i][0] == heavy else (j, i))
+        acc = [i for i in range(len(spec)) if spec[i][0] in ("N", "O") and part(i)]
+        return sorted((d, h, a) for (d, h) in donors for a in acc if a != d)
+    for ew in (True, False):
+        for sc in (False, True):
+            desc = "triplets on the model topology, exclude_water=%s, sidechain_only=%s" % (ew, sc)
+            top, _atoms = world()
+            try:
+                r = TenSym().run_fn(fn, topology=top, exclude_water=ew, sidechain_only=sc)
+            except PUnsupported as e:
+                ctx.undecided("C14-R2", fn, HB, q, desc, "not evaluable: %s" % e)
+                continue
+            want = definition(ew, sc)
+            got = None
+            if isinstance(r, Ten) and r.ndim == 2 and r.shape[1] == 3 and all(x.const_value() is not None for x in r.data):
+                v = [int(x.const_value()) for x in r.data]
+                got = sorted(tuple(v[3 * k:3 * k + 3]) for k in range(r.shape[0]))
+            why = ""
+            if got is None:
+                why = "the result is not an (n, 3) array of atom indices"
+            elif got != want:
+                miss = [t for t in want if t not in got]
+                extra = [t for t in got if t not in want]
+                dup = sorted({t for t in got if got.count(t) > 1})
+                fm = lambda ts_: ", ".join("(%s)" % "-".join(name(i) for i in t) for t in ts_[:4])   # noqa: E731
+                why = "; ".join(x for x in ("missing %s" % fm(miss) if miss else "", "not hydrogen-bond candidates: %s" % fm(extra) if extra else "",
+                                            "listed twice: %s" % fm(dup) if dup and not extra else "") if x)
+            ctx.decide(got == want, "C14-R2", fn, HB, q, desc, "%d triplets (donor, hydrogen, acceptor)" % len(want), why)
+    # a topology without donors gives an empty (0, 3) result; a topology without bonds is refused
+    top, _a = world(bonds=[(2, 3), (11, 12)])
+    try:
+        r = TenSym().run_fn(fn, topology=top, exclude_water=True, sidechain_only=False)
+        ctx.decide(isinstance(r, Ten) and r.shape == (0, 3), "C14-R2", fn, HB, q, "no N-H / O-H bond: empty (0, 3) result", "", "the result has shape %s" % (getattr(r, "shape", None),))
+    except PUnsupported as e:
+        ctx.undecided("C14-R2", fn, HB, q, "no N-H / O-H bond: empty (0, 3) result", "not evaluable: %s" % e)
+    top, _a = world(bonds=[])
+    try:
+        r = TenSym().run_fn(fn, topology=top, exclude_water=True, sidechain_only=False)
+        ctx.violated("C14-R2", fn, HB, q, "a topology without bonds is refused", "no error is raised for a topology without bonds: every search silently finds nothing")
+    except Raised as e:
+        ctx.holds("C14-R2", fn, HB, q, "a topology without bonds is refused", "raises %s" % e.exc[:40])
+    except PUnsupported as e:
+        ctx.undecided("C14-R2", fn, HB, q, "a topology without bonds is refused", "not evaluable: %s" % e)
 
 
 def _unwrap(t):
